@@ -128,4 +128,97 @@ Section PT.
       unfold after_fut. rewrite has_commit_app, Hoa. reflexivity.
     - cbn [fst snd]. reflexivity.
   Qed.
+  Lemma after_fut_h : forall s acts F, s_h (after_fut s acts F) = s_h s.
+  Proof. intros. unfold after_fut. destruct (has_commit acts); reflexivity. Qed.
+
+  Lemma pt_on_timeout : forall s F k h r, WF s ->
+    on_timeout c (with_fut s F) k h r = (with_fut (fst (on_timeout c s k h r)) F, snd (on_timeout c s k h r)).
+  Proof.
+    intros s F k h r W. unfold on_timeout.
+    change (s_h (with_fut s F)) with (s_h s). change (s_r (with_fut s F)) with (s_r s).
+    change (s_step (with_fut s F)) with (s_step s). destruct k.
+    - destruct ((s_h s =? h) && (s_r s =? r)%Z && step_eqb (s_step s) SPropose); [|reflexivity].
+      rewrite pt_send_prevote by exact W. destruct (send_prevote c s None). reflexivity.
+    - destruct ((s_h s =? h) && (s_r s =? r)%Z && step_eqb (s_step s) SPrevote); [|reflexivity].
+      rewrite pt_send_precommit by exact W. destruct (send_precommit c s None). reflexivity.
+    - destruct ((s_h s =? h) && (s_r s =? r)%Z); [|reflexivity].
+      rewrite pt_start_round by exact W. destruct (start_round c s (r + 1)%Z). reflexivity.
+  Qed.
+
+  Lemma on_timeout_nc : forall s k h r, has_commit (snd (on_timeout c s k h r)) = false.
+  Proof.
+    intros. unfold on_timeout. destruct k.
+    - destruct ((s_h s =? h) && (s_r s =? r)%Z && step_eqb (s_step s) SPropose); reflexivity.
+    - destruct ((s_h s =? h) && (s_r s =? r)%Z && step_eqb (s_step s) SPrevote); reflexivity.
+    - destruct ((s_h s =? h) && (s_r s =? r)%Z); [|reflexivity].
+      pose proof (start_round_nc c s (r + 1)%Z) as N. destruct (start_round c s (r + 1)%Z) as [s' a].
+      simpl in *. destruct a; try discriminate; reflexivity.
+  Qed.
+
+  Lemma pt_process_message : forall s F w h r, WF s -> is_commit w = false ->
+    process_message c (with_fut s F) w h r =
+    (after_fut (fst (fst (process_message c s w h r))) (snd (fst (process_message c s w h r))) F,
+     snd (fst (process_message c s w h r)), snd (process_message c s w h r)).
+  Proof.
+    intros s F w h r W Hw. unfold process_message. change (s_h (with_fut s F)) with (s_h s).
+    destruct (negb (h =? s_h s)).
+    - cbn [fst snd]. unfold after_fut, has_commit. simpl. destruct w; try discriminate; reflexivity.
+    - rewrite pt_loop by exact W. destruct (loop c FUEL s (Some r)) as [[s1 acts] ex]. cbn [fst snd].
+      unfold after_fut, has_commit. simpl. destruct w; try discriminate; reflexivity.
+  Qed.
+
+  Lemma pt_step_x : forall s F i, WF s -> input_low s i ->
+    step_x c (with_fut s F) i =
+    (after_fut (fst (fst (step_x c s i))) (snd (fst (step_x c s i))) F,
+     snd (fst (step_x c s i)), snd (step_x c s i)).
+  Proof.
+    intros s F i W L. destruct i as [r|p|v|v|k h r]; unfold step_x; simpl in L.
+    - change (s_started (with_fut s F)) with (s_started s). destruct (s_started s); [reflexivity|].
+      change (set_started (with_fut s F) true) with (with_fut (set_started s true) F).
+      rewrite pt_start_round by exact W.
+      destruct (start_round_cells c (set_started s true) r W) as [W1 _].
+      pose proof (start_round_nc c (set_started s true) r) as N.
+      destruct (start_round c (set_started s true) r) as [s1 a]. cbn [fst snd] in *.
+      rewrite pt_loop by exact W1. destruct (loop c FUEL s1 None) as [[s2 acts] ex]. cbn [fst snd].
+      rewrite after_fut_h. unfold after_fut, has_commit. simpl. destruct a; try discriminate; reflexivity.
+    - change (s_vc (with_fut s F)) with (vwf (s_vc s) F).
+      destruct (N.lt_ge_cases (p_h p) (vc_h (s_vc s))) as [Lt|Ge].
+      + destruct (pt_add_proposal_low (s_vc s) F p Lt) as [E1 E2]. rewrite E1, E2. reflexivity.
+      + rewrite pt_add_proposal by (unfold WF in W; lia).
+        destruct (add_proposal_cells c s p _ W L eq_refl) as [W1 _].
+        destruct (vc_add_proposal c (s_vc s) p) as [vc ok]. cbn [fst snd] in *.
+        change (set_vc (with_fut s F) (vwf vc F)) with (with_fut (set_vc s vc) F).
+        change (s_started (with_fut (set_vc s vc) F)) with (s_started (set_vc s vc)).
+        destruct (negb ok || negb (s_started (set_vc s vc))); [reflexivity|].
+        apply pt_process_message; [exact W1|reflexivity].
+    - change (s_vc (with_fut s F)) with (vwf (s_vc s) F).
+      destruct (N.lt_ge_cases (v_h v) (vc_h (s_vc s))) as [Lt|Ge].
+      + destruct (pt_add_vote_low (s_vc s) F Prevote v Lt) as [E1 E2]. rewrite E1, E2. reflexivity.
+      + rewrite pt_add_vote by (unfold WF in W; lia).
+        destruct (add_vote_cells c s Prevote v _ W L eq_refl) as [W1 _].
+        destruct (vc_add_vote c (s_vc s) Prevote v) as [vc ok]. cbn [fst snd] in *.
+        change (set_vc (with_fut s F) (vwf vc F)) with (with_fut (set_vc s vc) F).
+        change (s_started (with_fut (set_vc s vc) F)) with (s_started (set_vc s vc)).
+        destruct (negb ok || negb (s_started (set_vc s vc))); [reflexivity|].
+        apply pt_process_message; [exact W1|reflexivity].
+    - change (s_vc (with_fut s F)) with (vwf (s_vc s) F).
+      destruct (N.lt_ge_cases (v_h v) (vc_h (s_vc s))) as [Lt|Ge].
+      + destruct (pt_add_vote_low (s_vc s) F Precommit v Lt) as [E1 E2]. rewrite E1, E2. reflexivity.
+      + rewrite pt_add_vote by (unfold WF in W; lia).
+        destruct (add_vote_cells c s Precommit v _ W L eq_refl) as [W1 _].
+        destruct (vc_add_vote c (s_vc s) Precommit v) as [vc ok]. cbn [fst snd] in *.
+        change (set_vc (with_fut s F) (vwf vc F)) with (with_fut (set_vc s vc) F).
+        change (s_started (with_fut (set_vc s vc) F)) with (s_started (set_vc s vc)).
+        destruct (negb ok || negb (s_started (set_vc s vc))); [reflexivity|].
+        change (s_h (with_fut (set_vc s vc) F)) with (s_h s). change (s_h (set_vc s vc)) with (s_h s).
+        assert (NoTS : (s_h s <? v_h v) = false) by lia. rewrite NoTS. cbn [andb].
+        assert (X : forall (A : Type) (a b : A), (if match v_id v with Some _ => false | None => false end then a else b) = b)
+          by (intros; destruct (v_id v); reflexivity).
+        rewrite !X. apply pt_process_message; [exact W1|reflexivity].
+    - rewrite pt_on_timeout by exact W.
+      destruct (on_timeout_cells c s k h r W) as [W1 _]. pose proof (on_timeout_nc s k h r) as N.
+      destruct (on_timeout c s k h r) as [s1 a0]. cbn [fst snd] in *.
+      rewrite pt_loop by exact W1. destruct (loop c FUEL s1 None) as [[s2 acts] ex]. cbn [fst snd].
+      unfold after_fut. rewrite has_commit_app, N. reflexivity.
+  Qed.
 End PT.
